@@ -1046,6 +1046,38 @@ func continuedCounter(a ssa.Value, others []ssa.Value) (*ssa.Phi, bool) {
 	return nil, false
 }
 
+// shiftIsBoundOf: some other site's counter (from 0) stops at k: `b < k`, or b ranges over xs[:k].
+func shiftIsBoundOf(k ssa.Value, others []ssa.Value) bool {
+	isBound := func(v ssa.Value) bool {
+		if v == k {
+			return true
+		}
+		c, isCall := v.(*ssa.Call)
+		if !isCall {
+			return false
+		}
+		b, isB := c.Call.Value.(*ssa.Builtin)
+		if !isB || b.Name() != "len" || len(c.Call.Args) != 1 {
+			return false
+		}
+		sl, isSl := c.Call.Args[0].(*ssa.Slice)
+		return isSl && sl.High == k && (sl.Low == nil || func() bool {
+			lc, isC := sl.Low.(*ssa.Const)
+			return isC && lc.Value != nil && constant.Sign(lc.Value) == 0
+		}())
+	}
+	for _, b := range others {
+		bphi, okb := chainedCounter(b, 0)
+		if !okb {
+			continue
+		}
+		if boundedBy(b, bphi.Block().Succs[0], isBound) || boundedBy(ssa.Value(bphi), bphi.Block().Succs[0], isBound) {
+			return true
+		}
+	}
+	return false
+}
+
 func c12EvaluationsSSA(r *Run) {
 	w := r.W
 	cm := w.callModel()
@@ -1056,9 +1088,10 @@ func c12EvaluationsSSA(r *Run) {
 	name := cm.f.Name()
 	node := ssa.Value(cm.fn.Params[1])
 	type site struct {
-		call *ssa.Call
-		idx  ssa.Value
-		bad  string
+		call  *ssa.Call
+		idx   ssa.Value
+		shift ssa.Value // the positions are idx + shift (elements of node.Arguments[shift:])
+		bad   string
 	}
 	sites := map[string]*site{}
 	var twiceAt token.Pos
@@ -1084,14 +1117,28 @@ func c12EvaluationsSSA(r *Run) {
 			if !ok {
 				continue
 			}
-			x, isArgs := isFieldLoadOf(p.resolve(ia.X), astPath, "CallExpression", "Arguments")
+			// the list itself, or a prefix node.Arguments[:n] of it (element i of the prefix is element i of the list);
+			// a suffix node.Arguments[k:] shifts the positions by k
+			list := p.resolve(ia.X)
+			var shift ssa.Value
+			if sl, isSl := list.(*ssa.Slice); isSl && sl.Max == nil {
+				if sl.Low != nil {
+					if lc, isC := sl.Low.(*ssa.Const); !isC || lc.Value == nil || constant.Sign(lc.Value) != 0 {
+						shift = origValue(sl.Low)
+					}
+				}
+				if shift == nil || sl.High == nil {
+					list = p.resolve(sl.X)
+				}
+			}
+			x, isArgs := isFieldLoadOf(list, astPath, "CallExpression", "Arguments")
 			if !isArgs || p.resolve(x) != node {
 				continue
 			}
 			// (the site and its index variable as the program has them, not an activation's copy)
 			key := fmt.Sprintf("%p/%p", origInstr(c), origInstr(ia))
 			if sites[key] == nil {
-				sites[key] = &site{call: origCall(c), idx: origInstr(ia).(*ssa.IndexAddr).Index}
+				sites[key] = &site{call: origCall(c), idx: origInstr(ia).(*ssa.IndexAddr).Index, shift: shift}
 			}
 			_ = ia
 		}
@@ -1151,6 +1198,21 @@ func c12EvaluationsSSA(r *Run) {
 			continue
 		}
 		phi, ok := chainedCounter(s.idx, 0)
+		var others []ssa.Value
+		for _, k2 := range keys {
+			if k2 != k && sites[k2].shift == nil {
+				others = append(others, sites[k2].idx)
+			}
+		}
+		if s.shift != nil {
+			// elements of the rest node.Arguments[k:], visited from its first: positions k, k+1, ... - k must be
+			// where another site's counter (from 0) stops
+			_, fromZero := counterFromZero(s.idx)
+			ok = ok && fromZero && shiftIsBoundOf(s.shift, others)
+		} else if !ok {
+			// a counter that starts where another site's counter (from 0) is bounded
+			phi, ok = continuedCounter(s.idx, others)
+		}
 		switch {
 		case !ok:
 			r.Bad("R1", name, con, w.Pos(s.idx.Pos()), "an argument is evaluated at an index that does not run over consecutive positions from 0 (it may be evaluated twice, skipped, or out of order)")
@@ -1160,7 +1222,9 @@ func c12EvaluationsSSA(r *Run) {
 		h := phi.Block()
 		ia := s.idx
 		_ = ia
-		noteZero(s.idx, phi)
+		if s.shift == nil {
+			noteZero(s.idx, phi)
+		}
 		loopsSeen[h]++
 		r.Ok("R1", name, con, w.Pos(s.idx.Pos()), "the index ascends by one from 0 (or from where the previous loop stopped)")
 	}
